@@ -353,6 +353,8 @@ fn numeric_fields(ev: &TerminalEvent, span: &[u8]) -> Result<(), Fail> {
         TerminalEvent::KeyboardLevel(_) => fields(span, 3, 1),
         // ESC [ ? a ; b c
         TerminalEvent::DeviceAttrs(_) => fields(span, 3, 1),
+        // ESC [ ? mode ; status $ y
+        TerminalEvent::DecMode { .. } => fields(span, 3, 2),
         // ESC ] 4 ; i ; spec
         TerminalEvent::Color { .. } => fields(span, 2, 0).into_iter().take(2).collect(),
         // ESC [ 8 ; h ; w t ESC [ 4 ; h ; w t
@@ -406,6 +408,18 @@ fn numeric_fields(ev: &TerminalEvent, span: &[u8]) -> Result<(), Fail> {
                 if !ok_plain(v as u128, n, UMAX) {
                     return bad(name, v.to_string());
                 }
+            }
+        }
+        TerminalEvent::DecMode { mode, status } if runs.len() == 2 => {
+            // a report is recognised only for the exact mode and status numbers of the DEC tables
+            // (pinned in ttyout.rs): a number that merely agrees with one modulo 2^k is unknown
+            let m = crate::ttyout::DEC_MODES.iter().find(|(_, dm)| dm == mode).map(|(n, _)| *n as u128);
+            let st = crate::ttyout::DEC_STATUS.iter().find(|(_, ds)| ds == status).map(|(n, _)| *n as u128);
+            if m != Some(runs[0]) {
+                return bad("dec-mode-number", format!("{:?}", mode));
+            }
+            if st != Some(runs[1]) {
+                return bad("dec-mode-status", format!("{:?}", status));
             }
         }
         TerminalEvent::DeviceAttrs(attrs) => {
